@@ -3,18 +3,22 @@
 (* DistributedRWLock<N>).  Each line of the observation file is one BATCH of free-running       *)
 (* rounds (harness/drv/rwlock_stress.h: real threads, real futex, inert hook points, no         *)
 (* controller) on one fresh lock object:                                                        *)
-(*   {"e":"Batch","lock":name,"slots":N,"kind":"rw"|"upg","batch":i,"rounds":n,"stuck":0|1,    *)
+(*   {"e":"Batch","lock":name,"slots":N,"kind":"rw"|"upg","mode":"step"|"free","batch":i,      *)
+(*    "rounds":n,"stuck":0|1,                                                                   *)
 (*    "role":[..],"fin":[..],"inc":[..],"wtorn":[..],"snaps":[..],"torn":[..],"back":[..],      *)
 (*    "tl":[..],"tlok":[..],"ts":[..],"tsok":[..],"a":A,"b":B,"probes":P,"ptry":n,"psh":n,      *)
 (*    "word":0|1}                                                                               *)
-(* Per-thread arrays in thread order.  role: "W" may write-lock (lock / try_lock /              *)
+(* Every thread runs `rounds` short random programs (1-3 lock ... unlock segments); in a "step" *)
+(* batch every round starts at a barrier, in a "free" batch the threads run all their programs  *)
+(* back to back.  Per-thread arrays in thread order.  role: "W" may write-lock (lock / try_lock /              *)
 (* lock_downgrade) and read-lock, "R" only read-locks (lock_shared / try_lock_shared), "U" is   *)
 (* the single write-locking thread of an upgrade batch (it also uses lock_upgrade).  The        *)
 (* protected data are two plain counters a, b: a write section (entered after lock, a           *)
 (* successful try_lock or lock_upgrade) reads both, stores a+1, then b+1, and re-reads a; a     *)
 (* read section (after lock_shared, a successful try_lock_shared or lock_downgrade) copies a,   *)
-(* then b.  After every round, when all threads have left the lock, the last one probes it:     *)
-(* try_lock (+unlock), try_lock_shared (+unlock_shared).                                        *)
+(* then b.  Whenever all threads have left the lock (after every round of a step batch, at the  *)
+(* end of a free batch) the thread that left last probes it: try_lock (+unlock),                *)
+(* try_lock_shared (+unlock_shared).                                                            *)
 (*                                                                                              *)
 (* Nothing is assumed about the order of operations of different threads, so every conjunct     *)
 (* holds for EVERY execution of a lock that refines RWLock.tla / DRWLock.tla, whatever the      *)
@@ -23,8 +27,8 @@
 (* Progress   NoStuck, Termination and BlockedProceeds of the specification: every program is   *)
 (*            finite and releases what it acquires, a batch with lock_upgrade has a single      *)
 (*            write-locking thread (the documented precondition), so every blocked locker       *)
-(*            proceeds and every thread finishes every round (the driver waits 10 s of wall     *)
-(*            time, 10^6 times the duration of a round, before it reports "stuck").             *)
+(*            proceeds and every thread finishes every program (the driver waits 10 s of wall   *)
+(*            time, >= 10^4 times the duration of a batch, before it reports "stuck").          *)
 (* Exclusion  ExclCs: a write section overlaps no other section.  Hence a writer finds a = b    *)
 (*            and finds its own a+1 still in place before it leaves (wtorn = 0); a reader,      *)
 (*            whose section overlaps no write section, copies a = b (torn = 0); and as the      *)
@@ -56,7 +60,7 @@ SumSeq(s) == IF s = <<>> THEN 0 ELSE Head(s) + SumSeq(Tail(s))
 
 AllZero(s) == \A i \in 1..Len(s) : s[i] = 0
 
-Fields == {"lock", "slots", "kind", "batch", "rounds", "stuck", "role", "fin", "inc", "wtorn", "snaps", "torn",
+Fields == {"lock", "slots", "kind", "mode", "batch", "rounds", "stuck", "role", "fin", "inc", "wtorn", "snaps", "torn",
            "back", "tl", "tlok", "ts", "tsok", "a", "b", "probes", "ptry", "psh", "word"}
 
 Shape(rec) ==
@@ -69,6 +73,7 @@ Shape(rec) ==
        /\ (rec.role[i] = "R" => rec.inc[i] = 0 /\ rec.tl[i] = 0)
   /\ (rec.kind = "upg" => \A i \in 2..n : rec.role[i] = "R")      \* a single write-locking thread
   /\ rec.rounds >= 1
+  /\ rec.mode \in {"step", "free"}
 
 Progress(rec) ==
   /\ rec.stuck = 0
@@ -79,7 +84,7 @@ Exclusion(rec) == AllZero(rec.wtorn) /\ AllZero(rec.torn) /\ AllZero(rec.back)
 NoLostUpdate(rec) == rec.a = SumSeq(rec.inc) /\ rec.b = SumSeq(rec.inc)
 
 Quiescent(rec) ==
-  /\ rec.probes = rec.rounds
+  /\ rec.probes = (IF rec.mode = "step" THEN rec.rounds ELSE 1)
   /\ rec.ptry = rec.probes
   /\ rec.psh = rec.probes
   /\ rec.word = 0
